@@ -62,7 +62,7 @@ def generate(repo):
         t = read(repo, *f)
         if f[1] == "murmur_hash.cc":
             t = strip_arm(t)
-            t = t[t.index("uint64_t MurmurHash64A"):t.index("uint64_t MurmurHash64B")] + t[t.index("namespace {"):]
+            t = t[t.index("uint64_t MurmurHash64A"):]
         elif f[0] == "preprocess":
             # only the lines that hash
             t = "\n".join(l for l in t.split("\n") if "Murmur" in l or "HashCallback" in l or "hash" in l.lower())
@@ -119,6 +119,28 @@ def strict(repo):
         raise ValueError("tail switch cases are not exactly %d..1: %r (a missing label would skip the whole switch)" % (tail_mask, labels))
     if mul_case != labels[-1]:
         raise ValueError("`h *= m` is not in the last case of the tail switch")
+
+    # ---- MurmurHash64B (the version MurmurHashNative picks on 4-byte pointers)
+    k64b = src.index("uint64_t MurmurHash64B")
+    b = src[k64b:src.index("namespace {", k64b)]
+    need(ws(r"uint64_t MurmurHash64B \( const void \* key , std::size_t len , uint64_t seed \)"), b, "MurmurHash64B signature")
+    mb = need(ws(r"const unsigned int m = " + NUM + r" ; const int r = " + NUM + r" ; unsigned int h1 = seed \^ len ; unsigned int h2 = " + NUM + " ;"), b, "64B constants and initial state")
+    need(ws(r"size_t ksize = sizeof \( unsigned int \) ; const unsigned char \* data = \( const unsigned char \* \) key ; unsigned int k1 , k2 ;"), b, "64B pointer setup")
+    lb = need(ws(r"while \( len >= " + NUM + r" \) \{ memcpy \( &k1 , data , ksize \) ; data \+= ksize ; memcpy \( &k2 , data , ksize \) ; data \+= ksize ; "
+                 r"k1 \*= m ; k1 \^= k1 >> r ; k1 \*= m ; h1 \*= m ; h1 \^= k1 ; len -= " + NUM + r" ; "
+                 r"k2 \*= m ; k2 \^= k2 >> r ; k2 \*= m ; h2 \*= m ; h2 \^= k2 ; len -= " + NUM + r" ; \}"), b, "64B block loop")
+    ib = need(ws(r"if \( len >= " + NUM + r" \) \{ memcpy \( &k1 , data , ksize \) ; data \+= ksize ; k1 \*= m ; k1 \^= k1 >> r ; k1 \*= m ; h1 \*= m ; h1 \^= k1 ; len -= " + NUM + r" ; \}"), b, "64B half block")
+    sb = need(ws(r"switch \( len \) \{ case 3 : h2 \^= \( \( unsigned char \* \) data \) \[ 2 \] << " + NUM + r" ; "
+                 r"case 2 : h2 \^= \( \( unsigned char \* \) data \) \[ 1 \] << " + NUM + r" ; "
+                 r"case 1 : h2 \^= \( \( unsigned char \* \) data \) \[ 0 \] ; h2 \*= m ; \} ;"), b, "64B tail switch")
+    fb = need(ws(r"h1 \^= h2 >> " + NUM + r" ; h1 \*= m ; h2 \^= h1 >> " + NUM + r" ; h2 \*= m ; h1 \^= h2 >> " + NUM + r" ; h1 \*= m ; h2 \^= h1 >> " + NUM + r" ; h2 \*= m ; "
+                 r"uint64_t h = h1 ; h = \( h << " + NUM + r" \) \| h2 ; return h ; \}"), b, "64B finalisation")
+    b_consts = [("m64b_m", cint(mb.group(1))), ("m64b_r", cint(mb.group(2))), ("m64b_h2_init", cint(mb.group(3))),
+                ("m64b_loop_min", cint(lb.group(1))), ("m64b_loop_dec1", cint(lb.group(2))), ("m64b_loop_dec2", cint(lb.group(3))),
+                ("m64b_half_min", cint(ib.group(1))), ("m64b_half_dec", cint(ib.group(2))),
+                ("m64b_tail_sh2", cint(sb.group(1))), ("m64b_tail_sh1", cint(sb.group(2))),
+                ("m64b_fin1", cint(fb.group(1))), ("m64b_fin2", cint(fb.group(2))), ("m64b_fin3", cint(fb.group(3))), ("m64b_fin4", cint(fb.group(4))),
+                ("m64b_join_shift", cint(fb.group(5)))]
 
     # native dispatch
     need(ws(r"template <unsigned L> inline uint64_t MurmurHashNativeBackend \( const void \* key , std::size_t len , uint64_t seed \) \{ "
@@ -186,6 +208,8 @@ def strict(repo):
     L.append("Definition murmur_tail_cases : list (Z * nat * Z) :=\n  [%s]." % "; ".join("(%d, %d%%nat, %d)" % c for c in cases))
     L.append("Definition murmur_tail_mul_case : Z := %d.   (* the case that carries h *= m *)" % mul_case)
     L.append("Definition native_64b_pointer_size : Z := %d.   (* MurmurHashNative = 64A unless the pointer size is this *)" % cint(m4.group(1)))
+    for n_, v_ in b_consts:
+        L.append("Definition %s : Z := %d." % (n_, v_))
     L.append("Definition default_seed_64a : Z := %d." % default_seed_a)
     L.append("Definition default_seed_native : Z := %d." % default_seed_n)
     L.append("Definition shard_seed : Z := %d.   (* HashCallback default, fields.hh *)" % shard_seed)
